@@ -138,6 +138,12 @@ func TestC14Release(t *testing.T) {
 		}
 		closeChildFirst := rapid.Bool().Draw(rt, "closeChildFirst")
 
+		// a few unmeasured warm-up cycles first: anything the container starts once (not per scope) is part of the baseline
+		for i := 0; i < 3; i++ {
+			if s, err := parent.CreateScope(context.Background()); err == nil {
+				_ = s.Close()
+			}
+		}
 		runtime.GC()
 		time.Sleep(time.Millisecond)
 		base := runtime.NumGoroutine()
